@@ -134,7 +134,7 @@ fn mutate(text: &str, rng: &mut Rng) -> String {
             toks.push(cur);
         }
     }
-    match rng.below(12) {
+    match rng.below(13) {
         0 | 1 | 2 => chars[..rng.below(chars.len() + 1)].iter().collect(),
         3 => chars[rng.below(chars.len() + 1)..].iter().collect(),
         4 if !toks.is_empty() => {
@@ -172,6 +172,27 @@ fn mutate(text: &str, rng: &mut Rng) -> String {
             } else {
                 format!("({text} ?zz)")
             }
+        }
+        11 => {
+            // a dangling sigil (rejected by the tokenizer, whose error echoes the rest of the input) somewhere in the text,
+            // and a long tail of identifiers with multi-byte characters at every byte offset
+            let i = rng.below(chars.len() + 1);
+            let sig = ["? ", "$ ", "?)", "$(", "?", "$", " ? ", "$]"][rng.below(8)];
+            let pieces = ["x", "ab", "é", "ñ", "λ", "ü", "grün", "café", "字", "ß", "zz9", "q", "€", "😀"];
+            let mut tail = String::new();
+            let want = rng.range(20, 60);
+            while tail.len() < want {
+                tail.push_str(pieces[rng.below(pieces.len())]);
+                if rng.chance(1, 4) {
+                    tail.push(' ');
+                }
+            }
+            let mut s: String = chars[..i].iter().collect();
+            s.push_str(sig);
+            s.extend(chars[i..].iter());
+            s.push(' ');
+            s.push_str(&tail);
+            s
         }
         _ => String::new(),
     }
